@@ -21,7 +21,7 @@ def oracle_F(ops):
     for tok in ops:
         f = tok.split(":")
         o = "ok"
-        if f[0] == "at":
+        if f[0] in ("at", "cat"):          # cat/cati: the const overloads through a const FlatMap& - same answers, no change
             k = int(f[1]); o = "val=%d" % val[k] if k in val else "throw"
         elif f[0] == "idx":
             k = int(f[1])
@@ -31,7 +31,7 @@ def oracle_F(ops):
             k, v = int(f[1]), int(f[2])
             if k not in val: order.append(k)
             val[k] = v
-        elif f[0] == "ati":
+        elif f[0] in ("ati", "cati"):
             i = int(f[1]); o = "item=%d,%d" % (order[i], val[order[i]]) if i < len(order) else "throw"
         elif f[0] == "size": o = "num=%d" % len(order)
         elif f[0] == "empty": o = "true" if not order else "false"
@@ -86,9 +86,11 @@ def gen_F(r, maxlen, nkeys):
         if c < 0.30: ops.append("set:%d:%d" % (k, r.randint(1, 99)))
         elif c < 0.40: ops.append("idx:%d" % k)
         elif c < 0.52: ops.append("erase:%d" % k)
-        elif c < 0.62: ops.append("at:%d" % k)
+        elif c < 0.57: ops.append("at:%d" % k)
+        elif c < 0.62: ops.append("cat:%d" % k)
         elif c < 0.70: ops.append("has:%d" % k)
-        elif c < 0.82: ops.append("ati:%d" % r.randint(0, nkeys + 1))
+        elif c < 0.77: ops.append("ati:%d" % r.randint(0, nkeys + 1))
+        elif c < 0.82: ops.append("cati:%d" % r.randint(0, nkeys + 1))
         elif c < 0.90: ops.append("size")
         elif c < 0.96: ops.append("empty")
         else: ops.append("clear")
@@ -110,7 +112,8 @@ def gen_P(r, maxlen, nnames):
 
 
 def exhaustive_F(length):
-    alpha = ["set:1:5", "set:2:6", "set:1:7", "idx:1", "idx:2", "erase:1", "erase:2", "at:1", "ati:0", "ati:1", "clear", "has:2"]
+    alpha = ["set:1:5", "set:2:6", "set:1:7", "idx:1", "idx:2", "erase:1", "erase:2", "at:1", "ati:0", "ati:1", "clear", "has:2",
+             "cat:2", "cati:1"]
     for n in range(1, length + 1):
         for t in itertools.product(alpha, repeat=n):
             yield "F " + " ".join(t)
@@ -196,9 +199,14 @@ def run(ctx):
         if len(set(s.split("|")[1] for s in ml.split(" ; "))) >= 3:
             ctx.nontriv(c)
     ctx.cov["op_histogram"] = hist
+    ctx.cov["const_members"] = {"through_const_view": ["at const (cat)", "at_index const (cati)", "size", "empty", "contains",
+                                                       "begin/end const", "cbegin/cend", "rbegin/rend const", "crbegin/crend"],
+                                "excluded": {"operator[] const": "cannot be instantiated (push_back on a const vector); re-established on "
+                                                                 "every run by fact ff_const_index_uninstantiable"},
+                                "ParameterizedObject": "declares no const member function (closed list coq/C10/FactsDecls.v)"}
     ctx.cov["case_mix"] = {"corpus": ncorp, "random": nrand, "exhaustive_flatmap_histories": len(exh)}
     ctx.rule = ("histories over key/name alphabets of size 2-4 (random, length<=60) plus all FlatMap histories up to length %d over a "
-                "12-op alphabet on 2 keys; each run on FlatMap<int,int>, <string,string>, <string,vector<int>> and ParameterizedObject "
+                "14-op alphabet on 2 keys (incl. the const overloads through a const FlatMap&); each run on FlatMap<int,int>, <string,string>, <string,vector<int>> and ParameterizedObject "
                 "(int/float/string/vec3f values); non-trivial = the container passed through >=3 distinct contents" % ctx.pick(4, 5))
     for c in cases[ncorp:ncorp + 3]:
         ctx.sample({"case": c, "model_and_impl": mlines[cases.index(c)][:300]})
